@@ -871,6 +871,13 @@ class System:
             none_enabled = z3.And(none_enabled, z3.Not(self.consumer_enabled(k)))
         return z3.And(z3.Not(a.exited), unfinished, none_enabled)
 
+    def workers_blocked(self, k):
+        """some background thread has not finished and none of them can move (used when the consumer's Drop waits for them)"""
+        a = self.shared[k]
+        unfinished = z3.Or(*[self.pcs[k][t] != DONE for t in range(self.W)])
+        none_enabled = z3.And(*[z3.Not(self.enabled_progress(k, t)) for t in range(self.W)])
+        return z3.And(z3.Not(a.exited), unfinished, none_enabled)
+
     # ---- enabledness of "some progress step" at step k (for deadlock / livelock queries)
     def worker_done(self, k, t):
         return self.pcs[k][t] == DONE
